@@ -207,7 +207,9 @@ type e3State struct {
 	changes       []string // file operations since the last plain invocation
 	statusOK      bool
 	steps         []e3Step
-	ownState      map[string]bool // state files under .task written by plain runs of the task under test
+	lastByF       map[string]string // fingerprint -> outcome of the most recent attempt observed for it
+	lastEdit      [3]string         // file, content before, content after the last edit
+	ownState      map[string]bool   // state files under .task written by plain runs of the task under test
 	reportedSkipF string
 	prevView      map[string]string // matched files at the last plain invocation: rel -> content "@" mtime
 }
@@ -402,8 +404,27 @@ func (st *e3State) step(op e3Op, rng *rand.Rand, part *h.Partial) []e3Verdict {
 		}
 		f := m[rng.Intn(len(m))]
 		st.serial++
-		st.write(f, fmt.Sprintf("content %d\n", st.serial))
+		st.lastEdit = [3]string{f, st.files[f], fmt.Sprintf("content %d\n", st.serial)}
+		st.write(f, st.lastEdit[2])
 		rec.Op = "edit " + f
+		fileOp("edit")
+	case "revert", "redo":
+		// put back the content a file had before (revert) / after (redo) the last edit: the fingerprint
+		// returns to a value for which attempts were already observed
+		if st.lastEdit[0] == "" {
+			rec.Op = op.Kind + "(skip)"
+			return nil
+		}
+		if _, ok := st.files[st.lastEdit[0]]; !ok {
+			rec.Op = op.Kind + "(skip)"
+			return nil
+		}
+		c := st.lastEdit[1]
+		if op.Kind == "redo" {
+			c = st.lastEdit[2]
+		}
+		st.write(st.lastEdit[0], c)
+		rec.Op = op.Kind + " " + st.lastEdit[0]
 		fileOp("edit")
 	case "touch":
 		m := st.matchedFiles()
@@ -750,6 +771,14 @@ func (st *e3State) step(op e3Op, rng *rand.Rand, part *h.Partial) []e3Verdict {
 				}
 				out = append(out, e3Verdict{fmt.Sprintf("C05 | %s | change=%s | skipped", sh.Method, why),
 					fmt.Sprintf("task skipped although %s happened since the last run (prev outcome %s)", why, prev), props})
+				// C04 looks at the most recent attempt for the *present* fingerprint, whenever it was
+				if last, ok := st.lastByF[fNow]; genOK && statusOK && (!ok || last != "success") {
+					if !ok {
+						last = "none"
+					}
+					out = append(out, e3Verdict{fmt.Sprintf("C04 | %s | last-attempt-for-this-fingerprint=%s | skipped", sh.Method, last),
+						fmt.Sprintf("task reported up to date and skipped although the most recent attempt for the present fingerprint was %q (the fingerprint was left and came back: %s)", last, why), []string{"C04"}})
+				}
 			default:
 				props := []string{"C04"}
 				if via != "none" && via != "other-task" {
@@ -795,6 +824,12 @@ func (st *e3State) step(op e3Op, rng *rand.Rand, part *h.Partial) []e3Verdict {
 		}
 		st.prevSet, st.prevF, st.prevOut = true, st.fingerprint(), observed
 		st.prevView = st.view()
+		if st.lastByF == nil {
+			st.lastByF = map[string]string{}
+		}
+		if observed != "skipped" && observed != "never-run" && observed != "killed-complete" {
+			st.lastByF[fNow] = observed
+		}
 		st.since, st.changes = nil, nil
 	}
 	return out
@@ -927,7 +962,7 @@ func (st *e3State) witness(v e3Verdict, seedInfo any) map[string]string {
 	return w
 }
 
-var e3FileOps = []string{"edit", "edit", "touch", "touch", "add", "remove", "rename", "move", "edit-unmatched", "del-gen", "status-off", "status-on"}
+var e3FileOps = []string{"edit", "edit", "revert", "redo", "touch", "touch", "add", "remove", "rename", "move", "edit-unmatched", "del-gen", "status-off", "status-on"}
 var e3ROOps = []string{"run-dry", "run-status", "list-json", "list-all-json", "list", "list-all", "summary", "dry-withdir", "summary-withdir", "dry-parent", "dry-withsub", "status-withsub"}
 
 func e3RandomHistory(rng *rand.Rand, s e3Shape, prop string, n int) []e3Op {
@@ -1031,6 +1066,18 @@ func runE3(id string, start time.Time) int {
 								jobs = append(jobs, job{s, ops, "kill-enum", i})
 								i++
 							}
+						}
+						for _, p := range e3KillPoints(s) {
+							// an attempt for fingerprint B is killed; back at A a run succeeds (forced, or regenerating
+							// a missing output); B again must not be taken for built
+							mid := []e3Op{{Kind: "run-force"}}
+							if gen {
+								mid = []e3Op{{Kind: "del-gen"}, {Kind: "run"}}
+							}
+							ops := append([]e3Op{{Kind: "run"}, {Kind: "edit"}, {Kind: "kill", Arg: p}, {Kind: "revert"}}, mid...)
+							ops = append(ops, e3Op{Kind: "redo"}, e3Op{Kind: "run"}, e3Op{Kind: "run"})
+							jobs = append(jobs, job{s, ops, "kill-revert-enum", i})
+							i++
 						}
 						for k := 1; k <= n; k++ {
 							jobs = append(jobs, job{s, []e3Op{{Kind: "run"}, {Kind: "run-force-fail", K: k}, {Kind: "run"}, {Kind: "run"}}, "fail-enum", i})
